@@ -33,6 +33,14 @@ type c19Case struct {
 
 var c19Sizes = []int{0, 1, 2, 3, 7, 8, 15, 16, 17, 63, 64, 65, 100, 511, 512, 513, 1000, 1023, 1024, 1025, 2048, 4095, 4096, 4097, 5000, 8192, 10000}
 
+// c19Scribble overwrites a slice that was handed to a write operation: the buffers must have copied it (the
+// proxy builds the next reply in the same memory).
+func c19Scribble(d []byte) {
+	for i := range d {
+		d[i] ^= 0xa5
+	}
+}
+
 func c19Data(n int, seed byte, counter *int) []byte {
 	b := make([]byte, n)
 	for i := range b {
@@ -186,6 +194,7 @@ func (r *ringT) apply(op *bufOp, model *[]byte, counter *int) (string, bool) {
 			return fmt.Sprintf("Write(%d) = %d, %v", len(d), n, err), true
 		}
 		*model = append(m, d...)
+		c19Scribble(d)
 	case "writestring":
 		d := c19Data(op.N, op.Seed, counter)
 		n, err := r.rb.WriteString(string(d))
@@ -287,10 +296,12 @@ func (l *listT) apply(op *bufOp, model *[]byte, counter *int) (string, bool) {
 		d := c19Data(op.N, op.Seed, counter)
 		l.lb.PushBack(d)
 		*model = append(m, d...)
+		c19Scribble(d)
 	case "pushfront":
 		d := c19Data(op.N, op.Seed, counter)
 		l.lb.PushFront(d)
 		*model = append(append([]byte{}, d...), m...)
+		c19Scribble(d)
 	case "read":
 		p := make([]byte, op.N)
 		n, _ := l.lb.Read(p)
@@ -383,6 +394,7 @@ func (e *elasticT) apply(op *bufOp, model *[]byte, counter *int) (string, bool) 
 			return fmt.Sprintf("Write(%d) = %d, %v", len(d), n, err), true
 		}
 		*model = append(m, d...)
+		c19Scribble(d)
 	case "writev":
 		d := c19Data(op.N, op.Seed, counter)
 		var bs [][]byte
@@ -402,6 +414,7 @@ func (e *elasticT) apply(op *bufOp, model *[]byte, counter *int) (string, bool) 
 			return fmt.Sprintf("Writev(%d bytes in %d slices) = %d, %v", len(d), len(bs), n, err), true
 		}
 		*model = append(m, d...)
+		c19Scribble(d)
 	case "read":
 		p := make([]byte, op.N)
 		n, _ := e.eb.Read(p)
